@@ -1393,8 +1393,30 @@ def c14_boundscheck(kernel, data=None, nodata=-3000, lam=10.0, p=0.9, robust=Fal
         if kernel == "gammastd_grp":
             ng = max(groups) + 1
             cal = np.array([[0, groups.count(g)] for g in range(ng)], dtype="int16")
-            diff, _ = twice(stats.gammastd_grp, [np.array(x, dtype="int16"), np.array(groups, dtype="int16"), ng, nodata, cal], [((len(x),), "int16")])
-            return {"violates": any(diff), "why": "output element never written" if any(diff) else ""}
+            diff, first = twice(stats.gammastd_grp, [np.array(x, dtype="int16"), np.array(groups, dtype="int16"), ng, nodata, cal], [((len(x),), "int16")])
+            if any(diff):
+                return {"violates": True, "why": "output element never written"}
+            # scratch arrays allocated inside the kernel: the same call after different preceding calls (different heap content) must give
+            # the same result, also on longer records shaped after the witness (same signs / nodata positions, repeated)
+            rng = np.random.default_rng(14)
+            for reps in (1, 8):
+                xs = np.array(list(x) * reps, dtype="int16")
+                gs = np.array(list(groups) * reps, dtype="int16")
+                cl = np.array([[0, int((gs == g).sum())] for g in range(ng)], dtype="int16")
+                if reps > 1:
+                    pos = (xs > 0) & (xs != nodata)
+                    xs[pos] = np.clip(rng.integers(1, 400, int(pos.sum())), 1, 32000)
+                outs = []
+                for prime in (None, 30000, 3):
+                    if prime is not None:
+                        pv = np.clip(rng.integers(1, 50, len(xs)) * prime, 1, 32000).astype("int16")
+                        for _ in range(3):
+                            stats.gammastd_grp(pv, gs, ng, nodata, cl)
+                    outs.append(np.array(stats.gammastd_grp(xs, gs, ng, nodata, cl)))
+                if not all(np.array_equal(outs[0], o) for o in outs[1:]):
+                    return {"violates": True, "why": "result depends on what earlier calls left in memory (a scratch element is read before it is written)",
+                            "x": xs, "results": [o.tolist() for o in outs]}
+            return {"violates": False, "why": ""}
         if kernel == "do_mean":
             from hdc.algo.ops.zonal import do_mean
             do_mean(np.array([[[pix]]], dtype="int16"), np.array([[zone]], dtype="uint8" if 0 <= zone <= 255 else "int16"), 1, nodata, znd)
